@@ -28,7 +28,7 @@ def build(config="K0", units=("ctime_tests.c", "secp256k1.c", "precomputed_ecmul
                 os.remove(os.path.join(WORK, f))
             except OSError:
                 pass
-    tmpd = os.path.join(WORK, "irtmp.%d" % os.getpid())
+    tmpd = os.path.join(WORK, "irtmp.%d.%s.%s" % (os.getpid(), config, opt))     # one per (process, configuration): configurations build in parallel threads
     os.makedirs(tmpd, exist_ok=True)
     try:
         lls = []
